@@ -14,4 +14,9 @@ namespace DP.Shared
 theorem shared_state_source : Gen.sharedStateInventory =
     ["dateparser.__init__:_default_parser = DateDataParser()", "dateparser.conf:Settings._mod_settings (class-level container)", "dateparser.conf:settings = Settings()", "dateparser.date_parser:date_parser = DateParser()", "dateparser.freshness_date_parser:freshness_date_parser = FreshnessDateDataParser()", "dateparser.languages.dictionary:Dictionary._match_relative_regex_cache (class-level container)", "dateparser.languages.dictionary:Dictionary._sorted_relative_strings_cache (class-level container)", "dateparser.languages.dictionary:Dictionary._sorted_words_cache (class-level container)", "dateparser.languages.dictionary:Dictionary._split_regex_cache (class-level container)", "dateparser.languages.dictionary:Dictionary._split_relative_regex_cache (class-level container)", "dateparser.languages.loader:LocaleDataLoader._loaded_languages (class-level container)", "dateparser.languages.loader:LocaleDataLoader._loaded_locales (class-level container)", "dateparser.languages.loader:default_loader = LocaleDataLoader()", "dateparser.parser:time_parser = _time_parser()", "dateparser.search.__init__:_search_with_detection = DateSearchWithDetection()", "dateparser.timezone_parser:global _search_regex", "dateparser.timezone_parser:global _search_regex_ignorecase", "dateparser.timezone_parser:global _tz_offsets"] := by decide
 
+
+/-- generated fact: the registry key of a Settings value is computed from every item of the mapping — two configurations that differ in any
+    setting (the reference time included) never share one registry object, which is what the per-key models of C03 and C20 assume -/
+theorem settings_key_source : Gen.settingsKeyCoversEveryItem = true := by decide
+
 end DP.Shared
